@@ -371,6 +371,15 @@ class Interp:
                     cur = st.mem.get(root)
                     if cur is not None and cur[0] in ('ref', 'slice', 'fn'):
                         continue
+                    if cur is not None and cur[0] == 'agg' and cur[1][0] == 'adt' and cur[1][1].endswith('ops::Range') \
+                            and len(cur[2]) == 2 and is_int(cur[2][0]) and is_int(cur[2][1]) and not p['proj']:
+                        # an iterated Range: only `start` advances, and it stays within [start0, end]
+                        s0, end = cur[2]
+                        ns = S(s0[1], 'loopvar:%s:_%d.start' % (tag, p['local']))
+                        st.env.assume_eq(O(1, 'ule', s0, ns), 1)
+                        st.env.assume_eq(O(1, 'ule', ns, end), 1)
+                        st.mem[root] = ('agg', cur[1], (ns, end))
+                        continue
                     st.mem[root] = S(type_bits(ty), 'loopvar:%s:_%d' % (tag, p['local']))
                 else:
                     last = [(e['owner'], e['name']) for e in p['proj'] if e['k'] == 'field' and e['owner']]
@@ -1553,7 +1562,55 @@ def m_and_then(ip, st, fr, t, args, site, dest_ty):
     yield from call_some(st, inner)
 
 
+CF = 'std::ops::ControlFlow'
+
+
+def _cf(kind, v):
+    return ('agg', ('adt', CF, 0 if kind == 'Continue' else 1, kind), (v,))
+
+
+def m_try_branch(which):
+    """<Option<T> / Result<T,E> as Try>::branch: the `?` operator"""
+    good, bad = ('Some', 'None') if which == 'option' else ('Ok', 'Err')
+    ty = 'std::option::Option' if which == 'option' else 'std::result::Result'
+
+    def f(ip, st, fr, t, args, site, dest_ty):
+        v = args[0]
+        if v is not None and v[0] == 'agg' and v[1][0] == 'adt' and v[1][3] in (good, bad):
+            if v[1][3] == good:
+                yield (_cf('Continue', v[2][0]), st, 'ok', None)
+            else:
+                yield (_cf('Break', v), st, 'ok', None)
+            return
+        # unknown: both outcomes
+        st.n['sym'] += 1
+        tag = '%s#%d' % (fmt(v)[:40] if v is not None else 'try', st.n['sym'])
+        s2 = st.copy()
+        residual = ('agg', ('adt', ty, 0 if which == 'option' else 1, bad),
+                    () if which == 'option' else (S(0, 'err(%s)' % tag),))
+        yield (_cf('Break', residual), s2, 'ok', None)
+        inner = None
+        if v is not None:
+            inner = ip.project(st, ip.project(st, v, ('d', 1 if which == 'option' else 0, good)), ('f', 0, '0', '', ''))
+        if inner is None:
+            inner = S(0, 'val(%s)' % tag)
+        yield (_cf('Continue', inner), st, 'ok', None)
+    return f
+
+
+def m_from_residual(ip, st, fr, t, args, site, dest_ty):
+    v = args[0]
+    if v is not None and v[0] == 'agg' and v[1][0] == 'adt' and v[1][3] in ('None', 'Err'):
+        yield (v, st, 'ok', None)
+    else:
+        yield (st.fresh(0, 'residual'), st, 'ok', None)
+
+
 STD_MODELS = {
+    '<std::option::Option<T> as std::ops::Try>::branch': m_try_branch('option'),
+    '<std::result::Result<T, E> as std::ops::Try>::branch': m_try_branch('result'),
+    '<std::option::Option<T> as std::ops::FromResidual<std::option::Option<std::convert::Infallible>>>::from_residual': m_from_residual,
+    '<std::result::Result<T, F> as std::ops::FromResidual<std::result::Result<std::convert::Infallible, E>>>::from_residual': m_from_residual,
     'core::num::<impl u8>::wrapping_add': m_wrapping('add'),
     'core::num::<impl u16>::wrapping_add': m_wrapping('add'),
     'core::num::<impl u32>::wrapping_add': m_wrapping('add'),
